@@ -94,7 +94,14 @@ func VerifC09_CloseReturns() {
 // channel: no graphsync request maps to the channel any more, the channel is no longer tracked,
 // its store is unregistered exactly once, and a late callback for any of its requests produces
 // no event.
-func VerifC09_TransportReleasedAfterClose() {
+func VerifC09_TransportReleasedAfterClose() { verifReleasedAfterClose() }
+
+// VerifC16_SilentAfterCloseAndCleanup: the same history seen from property C16: after close (or
+// requester cancel, or restart) and cleanup, no graphsync callback for any of the channel's
+// requests produces a channel event, and the channel's store registration ended with it.
+func VerifC16_SilentAfterCloseAndCleanup() { verifReleasedAfterClose() }
+
+func verifReleasedAfterClose() {
 	f := verifNewTransport()
 	p := peer.ID(zz.String("p"))
 	tid := datatransfer.TransferID(zz.Uint64("tid"))
@@ -335,4 +342,58 @@ func VerifC10_CancelBeforeReopen() {
 		zz.Reach("completed hook")
 	}
 	var _ datamodel.Node = stor
+}
+
+// VerifC10_NoSecondRequestWhileOldOneMayLive: if graphsync cannot cancel the channel's previous
+// request (gs.Cancel returns an error other than "request not found"), re-opening the channel
+// fails and NO new graphsync request is issued - two requests must never run for one channel.
+// When graphsync no longer knows the old request the restart goes through.
+func VerifC10_NoSecondRequestWhileOldOneMayLive() {
+	r1, r2 := verifRid("r1"), verifRid("r2")
+	zz.Assume(r1 != r2)
+	o := verifNewOpenFix(r1, r2)
+	sender := peer.ID(zz.String("sender"))
+	tid := datatransfer.TransferID(zz.Uint64("tid"))
+	req := verifArbitraryRequest("req")
+	req.TransferId = uint64(tid)
+	chid := datatransfer.ChannelID{Initiator: o.self, Responder: sender, ID: tid}
+	root, stor := verifLink("root"), zz.Node("selector")
+	ctx := context.Background()
+	zz.Assert(o.t.OpenChannel(ctx, sender, chid, root, stor, nil, req) == nil, "first open succeeds")
+	zz.Settle()
+	notFound := zz.Bool("graphsyncForgotTheRequest")
+	if notFound {
+		o.gs.CancelErr = graphsync.RequestNotFoundErr{}
+	} else {
+		o.gs.CancelErr = zz.Error("cancelErr")
+	}
+	// the old request ends on graphsync's side (or the fail-safe timer fires while waiting)
+	if zz.Bool("oldRequestEnds") {
+		close(o.resps[0])
+		close(o.errs[0])
+		zz.Settle()
+	}
+	var reopenErr error
+	reopened := false
+	go func() {
+		reopenErr = o.t.OpenChannel(ctx, sender, chid, root, stor, &verifChanState{received: zz.Int64("received")}, req)
+		reopened = true
+	}()
+	zz.Settle()
+	for i := 0; i < 2 && !reopened; i++ {
+		zz.FireTimer()
+		if !zz.Engine() {
+			time.Sleep(400 * time.Millisecond)
+		}
+		zz.Settle()
+	}
+	zz.Assert(reopened, "the re-open returns")
+	if notFound {
+		zz.Assert(reopenErr == nil && o.gs.count(gsRequest) == 2, "graphsync no longer knows the old request: the restart goes through")
+		zz.Reach("old request already gone")
+	} else {
+		zz.Assert(reopenErr != nil, "the old request could not be cancelled: the re-open fails")
+		zz.Assert(o.gs.count(gsRequest) == 1, "and no second graphsync request is started for the channel")
+		zz.Reach("cancel failed")
+	}
 }
